@@ -4,6 +4,7 @@
 # This source code is licensed under the BSD-style license found in the
 # LICENSE file in the root directory of this source tree.
 
+import copy
 from typing import Any, Dict, Optional, Tuple
 
 import torch
@@ -59,10 +60,14 @@ class _Tombstone:
 
 class _IncrementalState:
     def __init__(self, initial_state: Optional[Dict[str, Any]]):
-        self.flat_state = _flatten(initial_state)
+        # Keep copies: the caller's objects may be mutated in place later, and generate_delta
+        # compares against what is retained here.
+        self.flat_state = copy.deepcopy(_flatten(initial_state))
 
     def generate_delta(self, new_state: Dict[str, Any]):
-        new_flat_state = _flatten(new_state)
+        # Work on a copy: the values are retained as the base of the next delta and are handed to
+        # a queue that pickles them later, while the caller may go on mutating its objects in place.
+        new_flat_state = copy.deepcopy(_flatten(new_state))
         delta_flat_state = {}
         all_keys = set()
         if self.flat_state:
